@@ -62,6 +62,12 @@ class JWSRegistry:
 
     def check_header(self, header: Header) -> None:
         """Check and validate the fields in header part of a JWS object."""
+        if "b64" in header:
+            # https://datatracker.ietf.org/doc/html/rfc7797#section-6
+            # whichever registry is at hand, "b64" only comes with a "crit" that lists it
+            crit = header.get("crit")
+            if not (isinstance(crit, list) and "b64" in crit):
+                raise ValueError('The "crit" Header Parameter MUST be included with "b64"')
         check_crit_header(header, self.header_registry)
         validate_registry_header(self.header_registry, header)
         if self.strict_check_header:
